@@ -26,7 +26,7 @@ UNPROVED = ["ring_shift for masks whose valid run crosses the periodic seam is F
             "differentiated with exactly one cell from the other side), ring_open_if_first/last_invalid, shift-equivariance for every rotation that keeps "
             "all runs off the seam (ring_shift_off_seam, ring_shift_off_seam_one), reversal (ring_reverse), and ring_shift for fully valid rings / restriction off",
             "n-d locality (diff_locality_nd), diff_refines_spec and diff_short_run_zero are stated for open axes; for a periodic axis the field-level statements are "
-            "diff_cell + diffRing_refines_spec (the spec applied to the wrap-padded line) and diff_invalid_zero (both kinds of axis)"]
+            "diff_cell + diff_refines_spec_periodic (the spec applied to the wrap-padded line), diff_periodic_centred_d1/d2 (fully valid lines) and diff_invalid_zero (both kinds of axis)"]
 BUDGET = {"quick": 80, "thorough": 900}
 
 
